@@ -909,6 +909,7 @@ func scheduleExtra(t *tr) string {
 	// the float64 reading of the const and line constructors: the same translation with every float operation rounded
 	// by a parameter `fl : ℝ → ℝ` (C01_const_float is about every fl with a relative error bound)
 	flText := x.floatReading([]string{"constDoAt", "NewConst", "lineDoAt", "NewLine"})
+	b.WriteString(flText)
 	// helper functions that the constructors call and that were translated on demand (main.go helperFunc), e.g. a
 	// `seconds(d)` extracted by a refactoring: the bridge lemmas unfold them through this tactic without knowing their names
 	b.WriteString("/-- unfolds the helper functions of core/schedule that were translated on demand: ")
@@ -917,7 +918,6 @@ func scheduleExtra(t *tr) string {
 	} else {
 		b.WriteString(strings.Join(t.auxNames, ", ") + " -/\nmacro \"schedule_aux_unfold\" : tactic => `(tactic| try simp only [" + strings.Join(t.auxNames, ", ") + "] at *)\n\n")
 	}
-	b.WriteString(flText)
 	b.WriteString("-- ---------------------------------------------------------------- what config validation accepts\n\n")
 	b.WriteString("noncomputable section\n\n")
 	for _, c := range [][2]string{{"NewConstConf", "ConstConfig"}, {"NewLineConf", "LineConfig"}, {"NewStepConf", "StepConfig"}, {"NewOnceConf", "OnceConfig"}} {
